@@ -187,3 +187,33 @@ Definition set_all_old (l : list (str * option str)) (d : dict) : dict :=
 
 Theorem heading_erases_entry_old_refuted : dict_get (set_all_old sec_assigns []) k_pre_b = Some None.
 Proof. reflexivity. Qed.
+
+(* ---- F-C17j (repaired 57534b2): a subnormal double ----
+   a libc that reads every text as the largest subnormal 0x000FFFFFFFFFFFFF (2.2250738585072009e-308, what the
+   16-digit text of DBL_MIN denotes) and raises ERANGE, as glibc does for subnormal results *)
+Definition sub_bits : Z := 2 ^ 52 - 1.
+Definition sub_strtod (s : str) : Z * bool := (sub_bits, true).
+Definition sub_text : str := [50; 46; 50; 101; 45; 51; 48; 56].                 (* "2.2e-308" *)
+Definition sub_fmt (b : Z) : str := sub_text.
+Definition dbl_history : list op :=
+  [ ONew 0; OAdd 0 TDouble 100 (Some [100; 98; 108]) 0 0 0 (IDbl 0);
+    ONew 4; OAdd 4 TDouble 100 (Some [100; 98; 108]) 32 0 0 (IDbl 0);
+    OParse 0 [GShort 100 (Some sub_text); GEnd] 3 [t_prog; t_f; sub_text];       (* p -d 2.2e-308 *)
+    OSave 0 t_f; OLoad 4 t_f ].
+
+Theorem double_subnormal_roundtrip :
+  let r := run sub_strtod sub_fmt empty_world dbl_history in
+  skipn 4 (fst r) = [3; 0; 0] /\                                           (* accepted on the command line, saved, loaded *)
+  st_dbl (w_store (snd r)) 0 = sub_bits /\ st_dbl (w_store (snd r)) 32 = sub_bits /\
+  roundtrip_ok_b sub_strtod sub_fmt (snd (run sub_strtod sub_fmt empty_world (firstn 5 dbl_history)))
+                 (get_opts (snd (run sub_strtod sub_fmt empty_world (firstn 5 dbl_history))) 0) = true.
+Proof. vm_compute. repeat split; reflexivity. Qed.
+
+(* underflow to zero with ERANGE (1e-400) and overflow (1e400) remain errors: command line -1, variable untouched *)
+Definition zero_strtod (s : str) : Z * bool := (0, true).
+Definition inf_strtod (s : str) : Z * bool := (DBL_INF, true).
+Theorem double_range_error_witness :
+  (let r := run zero_strtod sub_fmt empty_world (firstn 5 dbl_history) in skipn 4 (fst r) = [-1] /\ st_dbl (w_store (snd r)) 0 = 0) /\
+  (let r := run inf_strtod sub_fmt empty_world (firstn 5 dbl_history) in skipn 4 (fst r) = [-1] /\ st_dbl (w_store (snd r)) 0 = 0).
+Proof. vm_compute. repeat split; reflexivity. Qed.
+
